@@ -370,7 +370,7 @@ def programs(ctx):
     """(exhaustive, sampled): exhaustive = every canonical program of length 3 ending in a call and
     every program of length <= 5 whose last call ReseedReproduces relates to an earlier one;
     sampled = TLC-simulated programs of length 5 (+ thorough: all canonical programs of length 4)"""
-    nsim = 60 if ctx.quick else 600
+    nsim = 60 if ctx.quick else 400
     thunks = [
         lambda: ctx.gen("MC_RngDiscipline.tla", "Gen_RngDiscipline_full3.cfg", tag="gen_len3", workers=4),
         lambda: _cached_gen(ctx, "Gen_RngDiscipline_reseed5.cfg", "gen_reseed5", 8),
@@ -386,7 +386,7 @@ def programs(ctx):
         if k not in seen:
             seen.add(k)
             uniq.append(p)
-    want = 150 if ctx.quick else 1500
+    want = 150 if ctx.quick else 1000
     if len(uniq) > want:
         uniq = rng.sample(uniq, want)
     exhaustive = out[0] + [p for p in out[1] if len(p) > 3]
@@ -411,7 +411,7 @@ def make_job(rng, name, k, program, kind="hist"):
                 seeds=s, boot=rng.randrange(2 ** 31), kind=kind, focus="all")
 
 
-LEN4_PER_FUNCTION = 5000       # thorough: every routine runs a different sample of the length-4 programs
+LEN4_PER_FUNCTION = 3000       # thorough: every routine runs a different sample of the length-4 programs
 
 
 def build_jobs(ctx, short, longs, len4=()):
@@ -441,6 +441,8 @@ def run_all(jobs):
     # warm the imports before forking so that no worker pays for them inside a timed call
     for name in _inputs():
         importlib.import_module(_inputs()[name]["module"])
+    for m in ("scipy.stats", "scipy.linalg", "scipy.sparse", "multiprocessing.pool"):   # imported lazily by bctpy
+        importlib.import_module(m)
     out = pool.run_jobs(__name__, [jobs[k] for k in main], limit=10.0)
     for k, r in zip(main, out):
         recs[k] = r
